@@ -2,7 +2,7 @@
 
 Every model here is part of the trusted base of a claim and is listed in the evidence by name.
 """
-import z3
+import z3, re
 from .ir import P, NULL, FnPtr, Agg, Undef
 from . import engine as E
 
@@ -373,6 +373,12 @@ def install(eng):
     @model('verif_assert')
     def v_assert(st, a):
         c = a[0]; msg = nm(st, a[1])
+        flt = (getattr(eng, '_job', None) or {}).get('assert_filter')
+        if flt and not re.search(flt, msg):
+            # an assertion of a shared harness body that states ANOTHER property (e.g. the C09 order assertions in a C07 run): not evaluated here,
+            # and both outcomes stay on the path, so that this property's later assertions are still reached when the other one would fail
+            st.env['asserts_other'] = st.env.get('asserts_other', 0) + 1
+            return
         st.env['asserts'] = st.env.get('asserts', 0) + 1
         if isinstance(c, Undef): raise Bug('undef', 'verif_assert on uninitialised value: ' + msg, eng._m(st))
         if eng.env_witness and msg in eng.env_witness:
